@@ -143,7 +143,7 @@ class KeyedList(Generic[ItemType, KeyType], MutableSequence, KeyedBase):  # pyli
 
     def __getitem__(self, index_or_key):
         if isinstance(index_or_key, slice):
-            return type(self)(self._list[index_or_key], self.key)
+            return type(self)(self._list[index_or_key], self._key)
         if isinstance(index_or_key, int):
             return self._list[index_or_key]
         return self._dict[index_or_key]
@@ -258,12 +258,12 @@ class KeyedList(Generic[ItemType, KeyType], MutableSequence, KeyedBase):  # pyli
 
     def __add__(self, other):
         if isinstance(other, Sequence):
-            return type(self)([*self._list, *other], self.key)
+            return type(self)([*self._list, *other], self._key)
         return NotImplemented
 
     def __radd__(self, other):
         if isinstance(other, Sequence):
-            return type(self)([*other, *self._list], self.key)
+            return type(self)([*other, *self._list], self._key)
         return NotImplemented
 
     def __repr__(self):
